@@ -120,6 +120,13 @@ def mapOp (c : MapCtx) (op : String) (arg : String) : String :=
       let st ← (if c.kind == "stride" then defaultStridesM c.T es0 else (List.range es0.length).mapM (fun r => mapStride d r))
       let sp ← (if c.kind == "stride" then spanStrideM c.T es0 st else mapSpan d)
       pure s!"ok e={fmtL es0} s={fmtL st} span={sp}")
+  | "dfltoff" =>
+    -- `M{}(idx...)` of the default-constructed mapping
+    let es0 : List Int := c.pat.map (fun p => match p with | some v => c.T.wrap v | none => 0)
+    showM (do
+      let st ← (if c.kind == "stride" then defaultStridesM c.T es0 else pure [])
+      let d : MapCtx := { c with es := es0, ss := st, pv := none }
+      mapOff d (wrapL c.T (parseList arg)))
   | "adm" => s!"ok {fmtB (mapAdm c)}"
   | _ => "bad-op"
 
